@@ -659,10 +659,85 @@ func (r *runner) finish(res string, afterReorg bool) string {
 		return "hang"
 	}
 	r.checkInvariant(s, afterReorg)
+	r.checkGetters(s)
 	if r.dead {
 		return "skipped"
 	}
 	return res + " " + r.render(s)
+}
+
+// checkGetters compares what the public read API answers with the indexes: GetAll = allTransactions,
+// GetProcessable = the processable nonces of every sender list (each resolving to a pooled transaction),
+// Get(id) finds exactly the pooled transactions. A read API that serves remembered results (a cache that is
+// not dropped by every path that changes the lists) disagrees here although the three indexes agree.
+func (r *runner) checkGetters(s txpool.VerifSnapshot) {
+	if r.dead || r.hung {
+		return
+	}
+	var all, proc []*blockchain.Transaction
+	if !r.call("GetAll", func() { all = r.pool.GetAll() }) || !r.call("GetProcessable", func() { proc = r.pool.GetProcessable() }) {
+		return
+	}
+	idset := func(txs []*blockchain.Transaction) map[string]int {
+		m := map[string]int{}
+		for _, t := range txs {
+			if t != nil {
+				m[string(t.ID)]++
+			}
+		}
+		return m
+	}
+	wantAll := map[string]int{}
+	for _, t := range s.All {
+		wantAll[string(t.ID)]++
+	}
+	wantProc := map[string]int{}
+	for _, acc := range s.Accounts {
+		byNonce := map[uint64]txpool.VerifTx{}
+		for _, t := range acc.Transactions {
+			byNonce[t.NonceKey] = t
+		}
+		for _, n := range acc.Processables {
+			if t, ok := byNonce[n]; ok {
+				wantProc[string(t.ID)]++
+			}
+		}
+	}
+	diff := func(got, want map[string]int) string {
+		var d []string
+		for id, c := range got {
+			if want[id] != c {
+				d = append(d, fmt.Sprintf("%s returned %dx, indexed %dx", r.tokenOf([]byte(id)), c, want[id]))
+			}
+		}
+		for id, c := range want {
+			if _, ok := got[id]; !ok {
+				d = append(d, fmt.Sprintf("%s missing (indexed %dx)", r.tokenOf([]byte(id)), c))
+			}
+		}
+		sort.Strings(d)
+		return strings.Join(d, "; ")
+	}
+	if d := diff(idset(all), wantAll); d != "" {
+		r.fail("C14-getall-differs-from-index", d)
+	}
+	if d := diff(idset(proc), wantProc); d != "" {
+		r.fail("C14-getprocessable-differs-from-lists", d)
+	}
+	for id := range wantAll {
+		var ok bool
+		if !r.call("Get", func() { _, ok = r.pool.Get([]byte(id)) }) {
+			return
+		}
+		if !ok {
+			r.fail("C14-get-misses-pooled-transaction", r.tokenOf([]byte(id)))
+		}
+	}
+	for id := range idset(proc) {
+		if _, pooled := wantAll[id]; !pooled {
+			r.fail("C14-getprocessable-returns-unpooled-transaction", r.tokenOf([]byte(id)))
+		}
+	}
 }
 
 func (r *runner) step(op string) string {
